@@ -442,7 +442,9 @@ class P(Prop):
 
     def _noflush(self, case, i):
         k = case["history"][i]
-        return k is not None and (not k.get("flush", True) or "strace_write" in k)
+        # interrupt mode: the unwinding interpreter closes the temporary file, so the python-level trace has a
+        # `close` the model's crashed program does not issue; the directory contents are compared all the same
+        return k is not None and (not k.get("flush", True) or "strace_write" in k or k.get("mode") == "interrupt")
 
     def model_view(self, case, resp, impl_out):
         if "runs" not in resp:
@@ -476,9 +478,11 @@ class P(Prop):
         pre = impl_out["pre"]
         for i, (kill, run) in enumerate(zip(case["history"], impl_out["runs"])):
             where = f"invocation {i} ({'complete' if kill is None else 'killed at ' + json.dumps(kill)})"
+            injected = kill is not None and kill.get("mode") == "interrupt"
             if any(e[0] == "exception" for e in run["log"]):
                 exc = next(e for e in run["log"] if e[0] == "exception")
-                return f"{where}: the step raised {exc[1]}: {exc[2]}"
+                if not (injected and exc[1] == "KeyboardInterrupt"):
+                    return f"{where}: the step raised {exc[1]}: {exc[2]}"
             if kill is None and run["rc"] != 0:
                 return f"{where}: exit status {run['rc']}"
             fs = run["fs"]
@@ -587,6 +591,12 @@ class P(Prop):
         pts |= {n for n, sz in enumerate(sizes) if sz is None}
         for n in sorted(pts):
             hs.append([{"ops": n + 1, "bytes": 0, "flush": False}, None])
+        # death by an exception raised at the kill point (SIGINT): cleanup code runs while the interpreter unwinds
+        ipts = list(range(total + 1))
+        if tier == "quick":
+            ipts = sorted(set(ipts[::2]) | set(ipts[-3:]))
+        for n in ipts:
+            hs.append([{"ops": n, "bytes": 0, "flush": True, "mode": "interrupt"}, None])
         for _ in range(2 if tier == "quick" else 6):  # several crashes before the run that completes
             k = rng.randint(2, 3)
             hist = [{"ops": rng.randint(0, total), "bytes": 0, "flush": rng.random() < 0.8} for _ in range(k)]
